@@ -353,4 +353,102 @@ Proof.
     + intros k0 Hk0. apply Hm2, Hm1. assumption.
     + intros k0 [<-|Hr]; [apply Hm2; assumption|apply Hin; assumption].
 Qed.
+
+(* ---- round 4: the budgeted / throwing loops and chained generations for LimP4 ---- *)
+Lemma pmigrate_bucket_c_spec L newL i budget : 0 <= L -> L < newL <= 63 -> 0 <= i < 2 ^ L ->
+  forall fuel told tnew calls, PTinv L told -> PTinv newL tnew -> (Z.to_nat (pcnt (told i)) < fuel)%nat ->
+  match pmigrate_bucket_c H mm hash fuel told tnew L newL i budget calls with
+  | Ok (told', tnew', _, thrown) => pmig_post L newL told tnew told' tnew' /\ (thrown = false -> pcnt (told' i) = 0) /\
+                                    (forall j, j <> i -> told' j = told j)
+  | Exn => True
+  | _ => False
+  end.
+Proof.
+  intros HL HnL Hi. induction fuel as [|f IH]; intros told tnew calls Hold Hnew Hf; [lia|].
+  cbn [pmigrate_bucket_c]. pose proof (pbwf_cnt L _ (proj1 Hold i)) as Hc.
+  assert (Hid : pmig_post L newL told tnew told tnew) by (unfold pmig_post; split; [exact Hold|split; [exact Hnew|split; auto]]).
+  destruct (Z.eqb_spec (pcnt (told i)) 0) as [Hz|Hnz]; [split; [exact Hid|split; [intros; assumption|reflexivity]]|].
+  destruct (pgetter_used H (told i) i L newL (pcnt (told i) - 1) && (budget <=? calls));
+    [split; [exact Hid|split; [intros; discriminate|reflexivity]]|].
+  pose proof (prelocate_item_spec L newL told tnew i HL HnL Hold Hnew Hi ltac:(lia)) as Hstep.
+  destruct (prelocate_item H mm hash told tnew L newL i) as [[told1 tnew1]| | |]; try exact Hstep.
+  destruct Hstep as (Ho1 & Hn1 & Hc1 & Hfr1 & Hp1 & Hm1).
+  specialize (IH told1 tnew1 (if pgetter_used H (told i) i L newL (pcnt (told i) - 1) then calls + 1 else calls) Ho1 Hn1 ltac:(lia)).
+  destruct (pmigrate_bucket_c H mm hash f told1 tnew1 L newL i budget _) as [[[[told2 tnew2] c2] th]| | |]; try exact IH.
+  destruct IH as ((Ho2 & Hn2 & Hp2 & Hm2) & Hc2 & Hfr2).
+  split; [|split; [assumption|]].
+  - unfold pmig_post. split; [exact Ho2|split; [exact Hn2|split]].
+    + intros k Hk. destruct (Hp1 k Hk) as [G|G]; [apply Hp2; assumption|right; apply Hm2; assumption].
+    + intros k Hk. apply Hm2, Hm1. assumption.
+  - intros j Hj. rewrite Hfr2, Hfr1 by assumption. reflexivity.
+Qed.
+
+Lemma pmigrate_from_c_spec L newL budget : 0 <= L -> L < newL <= 63 ->
+  forall n told tnew i calls, 0 <= i -> i + Z.of_nat n <= 2 ^ L -> PTinv L told -> PTinv newL tnew ->
+  (forall j, 0 <= j < i -> pcnt (told j) = 0) ->
+  match pmigrate_from_c H mm hash n told tnew L newL i budget calls with
+  | Ok (told', tnew', _, thrown) => pmig_post L newL told tnew told' tnew' /\
+                                    (thrown = false -> forall j, 0 <= j < i + Z.of_nat n -> pcnt (told' j) = 0)
+  | Exn => True
+  | _ => False
+  end.
+Proof.
+  intros HL HnL. induction n as [|m IH]; intros told tnew i calls Hi Hn Hold Hnew Hz.
+  - cbn [pmigrate_from_c]. split; [|intros _ j Hj; apply Hz; lia].
+    unfold pmig_post. split; [exact Hold|split; [exact Hnew|split; auto]].
+  - cbn [pmigrate_from_c]. pose proof (pbwf_cnt L _ (proj1 Hold i)) as Hc.
+    pose proof (pmigrate_bucket_c_spec L newL i budget HL HnL ltac:(lia) 5%nat told tnew calls Hold Hnew ltac:(lia)) as Hb.
+    destruct (pmigrate_bucket_c H mm hash 5 told tnew L newL i budget calls) as [[[[told1 tnew1] c1] th]| | |]; try exact Hb.
+    destruct Hb as ((Ho1 & Hn1 & Hp1 & Hm1) & Hc1 & Hfr1).
+    destruct th.
+    + split; [|intros; discriminate]. unfold pmig_post. split; [exact Ho1|split; [exact Hn1|split; assumption]].
+    + assert (Hz1 : forall j, 0 <= j < i + 1 -> pcnt (told1 j) = 0).
+      { intros j Hj. destruct (Z.eq_dec j i) as [->|]; [apply Hc1; reflexivity|]. rewrite Hfr1 by assumption. apply Hz. lia. }
+      specialize (IH told1 tnew1 (i + 1) c1 ltac:(lia) ltac:(lia) Ho1 Hn1 Hz1).
+      destruct (pmigrate_from_c H mm hash m told1 tnew1 L newL (i + 1) budget c1) as [[[[told2 tnew2] c2] th2]| | |]; try exact IH.
+      destruct IH as ((Ho2 & Hn2 & Hp2 & Hm2) & Hz2).
+      split.
+      * unfold pmig_post. split; [exact Ho2|split; [exact Hn2|split]].
+        -- intros k Hk. destruct (Hp1 k Hk) as [G|G]; [apply Hp2; assumption|right; apply Hm2; assumption].
+        -- intros k Hk. apply Hm2, Hm1. assumption.
+      * intros Hth j Hj. apply Hz2; [assumption|lia].
+Qed.
+
+Definition pgens_ok (newL : Z) (gens : list (ptable * Z)) : Prop :=
+  Forall (fun g => 0 <= snd g /\ snd g < newL /\ PTinv (snd g) (fst g)) gens.
+Definition pin_gens (gens : list (ptable * Z)) (k : Z) : Prop := exists g, In g gens /\ PPresent (snd g) (fst g) k.
+
+Theorem pmigrate_gens_spec newL budget : newL <= 63 -> forall gens tnew calls, pgens_ok newL gens -> PTinv newL tnew ->
+  match pmigrate_gens H mm hash gens tnew newL budget calls with
+  | Ok (gens', tnew', _, thrown) =>
+      pgens_ok newL gens' /\ PTinv newL tnew' /\
+      (forall k, pin_gens gens k \/ PPresent newL tnew k -> pin_gens gens' k \/ PPresent newL tnew' k) /\
+      (thrown = false -> gens' = [])
+  | Exn => True
+  | _ => False
+  end.
+Proof.
+  intros HnL. induction gens as [|[told L] r IH]; intros tnew calls Hg Hnew; cbn [pmigrate_gens].
+  - split; [constructor|]. split; [assumption|]. split; [auto|reflexivity].
+  - inversion Hg as [|g gs Hg1 Hg2]; subst. cbn [fst snd] in Hg1. destruct Hg1 as (HL0 & HLn & Hold).
+    assert (Hpos : 0 < 2 ^ L) by (apply pow2_pos; lia).
+    pose proof (pmigrate_from_c_spec L newL budget HL0 ltac:(lia) (Z.to_nat (2 ^ L)) told tnew 0 calls ltac:(lia) ltac:(lia) Hold Hnew
+                ltac:(intros; lia)) as Hm.
+    destruct (pmigrate_from_c H mm hash (Z.to_nat (2 ^ L)) told tnew L newL 0 budget calls) as [[[[told1 tnew1] c1] th]| | |]; try exact Hm.
+    destruct Hm as ((Ho1 & Hn1 & Hp1 & Hm1) & Hz1).
+    destruct th.
+    + split; [constructor; [cbn [fst snd]; split; [assumption|split; assumption]|assumption]|]. split; [assumption|]. split; [|intros; discriminate].
+      intros k [(g & [<-|Hin] & Hk)|Hk].
+      * cbn [fst snd] in Hk. destruct (Hp1 k Hk) as [G|G]; [left; exists (told1, L); split; [left; reflexivity|exact G]|right; exact G].
+      * left. exists g. split; [right; assumption|assumption].
+      * right. apply Hm1. assumption.
+    + specialize (IH tnew1 c1 Hg2 Hn1).
+      destruct (pmigrate_gens H mm hash r tnew1 newL budget c1) as [[[[r' t2] c2] th2]| | |]; try exact IH.
+      destruct IH as (Hg' & Ht2 & Hk2 & Hth2). split; [assumption|]. split; [assumption|]. split; [|assumption].
+      intros k [(g & [<-|Hin] & Hk)|Hk].
+      * cbn [fst snd] in Hk. destruct (Hp1 k Hk) as [(b & x & Hb & Hx & _)|G]; [exfalso|apply Hk2; right; exact G].
+        rewrite (Hz1 eq_refl) in Hx by lia. lia.
+      * apply Hk2. left. exists g. split; assumption.
+      * apply Hk2. right. apply Hm1. assumption.
+Qed.
 End P4Inv.
